@@ -1,9 +1,28 @@
-// C11 (reduced) — no member name is defined twice across methods, types and errors, and
-// the structure mirrors the order of appearance: the real IDL::from_token on a member list.
-// Language equality of the grammar itself is outside CBMC's reach (DESIGN P9).
+// NOT MOUNTED (kept for the record, see DESIGN.md 3/C11): with two members CBMC either needs > 5 min per
+// instance with fully concrete names or reports its own memcmp "region readable" precondition as failed
+// once a name byte is symbolic - moving the 88-byte member enum through vec::IntoIter loses the
+// provenance of the &str pointers inside it. One member verifies in 9 s but cannot have a duplicate.
+//
+// C11 (second half, reduced) - a definition is rejected exactly when a member name is defined
+// twice across methods, types and errors, and the accepted structure lists the members per kind in
+// order of appearance: the real IDL::from_token on a member list whose kinds are constants of the
+// instance and whose names are solver-chosen. (IDL::try_from's last step - a non-empty error set
+// becomes Err(Error::Idl) - is three lines around a hashbrown iteration + sort that CBMC does not
+// finish; it is exercised natively by the replayer only.)
+// (Which texts the grammar accepts is decided by smt/c11.py.)
 use super::shared::c11::*;
 use super::shared::src_trait::KSrc;
 use crate::{Method, MethodOrTypedefOrError, Typedef, VEnum, VError, VStruct, VStructOrEnum, IDL};
+
+/// one byte per member name; contents symbolic, addresses concrete and distinct
+static mut NAMES: [[u8; 1]; NM] = [[0; 1]; NM];
+static mut KINDS: [u8; NM] = [0; NM];
+static mut N: usize = 0;
+static mut REPORTED: usize = 0;
+
+fn name(i: usize) -> &'static str {
+    unsafe { std::str::from_utf8_unchecked(&NAMES[i][..]) }
+}
 
 fn member<'a>(kind: u8, name: &'a str) -> MethodOrTypedefOrError<'a> {
     match kind {
@@ -29,69 +48,118 @@ fn member<'a>(kind: u8, name: &'a str) -> MethodOrTypedefOrError<'a> {
 fn fixed_random_state() -> std::hash::RandomState {
     unsafe { std::mem::transmute::<(u64, u64), std::hash::RandomState>((0, 0)) }
 }
-fn cheap_finish(_h: &std::hash::DefaultHasher) -> u64 {
-    0
-}
-fn cheap_write(_h: &mut std::hash::DefaultHasher, _b: &[u8]) {}
-fn cheap_write_str(_h: &mut std::hash::DefaultHasher, _s: &str) {}
 fn no_format(_a: std::fmt::Arguments<'_>) -> String {
     String::new()
 }
 
-static mut REPORTED: usize = 0;
-
-/// stands for HashSet<String>::insert on IDL.error (hashbrown's insert costs CBMC minutes and
-/// is not the subject): counts the definition errors from_token reports
+/// stands for HashSet<String>::insert on IDL.error (hashbrown's insert costs CBMC
+/// minutes and is not the subject): a ghost count of the definition errors reported
 fn error_insert_model<T, S, A: std::alloc::Allocator>(_s: &mut std::collections::HashSet<T, S, A>, v: T) -> bool {
     unsafe { REPORTED += 1 };
     std::mem::forget(v);
     true
 }
+/// stand for BTreeMap<&str, _>::{insert, len} on IDL.methods / typedefs / errors (std's B-tree insertion
+/// with node splitting costs CBMC > 8 GB and is not the subject): an association list with exactly
+/// insert's contract - same key (by Ord) present => the old value is returned and replaced.
+/// The three maps are told apart by the size of their value type (Method, Typedef, VError differ).
+static mut BT: [(usize, *const (), *mut ()); 3 * NM] = [(0, std::ptr::null(), std::ptr::null_mut()); 3 * NM];
+static mut BT_N: usize = 0;
+
+fn btree_insert_model<K: Ord, V, A: std::alloc::Allocator + Clone>(
+    _m: &mut std::collections::BTreeMap<K, V, A>,
+    key: K,
+    value: V,
+) -> Option<V> {
+    let id = std::mem::size_of::<V>();
+    let newv = Box::into_raw(Box::new(value)) as *mut ();
+    let mut i = 0;
+    while i < unsafe { BT_N } {
+        let (eid, kp, vp) = unsafe { BT[i] };
+        if eid == id {
+            let k2: &K = unsafe { &*(kp as *const K) };
+            if k2.cmp(&key) == std::cmp::Ordering::Equal {
+                let old = unsafe { *Box::from_raw(vp as *mut V) };
+                unsafe { BT[i].2 = newv };
+                std::mem::forget(key);
+                return Some(old);
+            }
+        }
+        i += 1;
+    }
+    let kp = Box::into_raw(Box::new(key)) as *const ();
+    unsafe {
+        BT[BT_N] = (id, kp, newv);
+        BT_N += 1;
+    }
+    None
+}
+
+fn btree_len_model<K, V, A: std::alloc::Allocator + Clone>(_m: &std::collections::BTreeMap<K, V, A>) -> usize {
+    let id = std::mem::size_of::<V>();
+    let mut c = 0;
+    let mut i = 0;
+    while i < unsafe { BT_N } {
+        if unsafe { BT[i].0 } == id {
+            c += 1;
+        }
+        i += 1;
+    }
+    c
+}
 
 fn duplicates(n: usize, kinds: [u8; NM]) {
-    let mut sc = draw(&mut KSrc);
-    // only the LAST member's name is solver-chosen; the earlier ones are pinned to distinct
-    // names (BTreeMap insertion with several if-then-else keys does not finish in CBMC)
-    let mut p = 0;
-    while p + 1 < n {
-        let pin = p % 2 == 1;
-        kani::assume(sc.name_b[p] == pin);
-        sc.name_b[p] = pin;
-        p += 1;
+    let sc = draw(&mut KSrc);
+    let mut i = 0;
+    while i < n {
+        unsafe {
+            NAMES[i][0] = letter(sc.name_b[i]);
+            KINDS[i] = kinds[i];
+        }
+        i += 1;
     }
+    unsafe { N = n };
+    // the grammar's action block on a fixed parse: IDL::from_token(input, name, members, trim_doc(doc))
     let mut mt = Vec::with_capacity(NM);
     let mut i = 0;
     while i < n {
-        mt.push(member(kinds[i], name_of(sc.name_b[i])));
+        mt.push(member(kinds[i], name(i)));
         i += 1;
     }
-    let idl = IDL::from_token("", "a.b", mt, "");
+    let idl = IDL::from_token("x", "a.b", mt, crate::trim_doc(""));
     let dup = has_duplicate(&sc, n);
     kani::cover!(dup, "a name is defined twice");
     kani::cover!(!dup, "all names distinct");
-    assert!((unsafe { REPORTED } > 0) == dup, "P:c11.duplicate_name_rejected_and_only_then");
+    // IDL::try_from turns a non-empty `error` set into Err(Error::Idl(..)), an empty one into Ok
+    let reported = unsafe { REPORTED } > 0;
+    assert!(!reported || dup, "P:c11.definition_without_duplicates_is_accepted");
+    assert!(reported || !dup, "P:c11.duplicate_name_is_rejected");
     // members are recorded per kind in order of appearance
     let (mut m, mut t, mut e) = (0usize, 0usize, 0usize);
     let mut j = 0;
     while j < n {
-        let name = name_of(sc.name_b[j]);
+        let want = name(j).as_ptr();
         match kinds[j] {
             K_METHOD => {
-                assert!(m < idl.method_keys.len() && idl.method_keys[m].as_ptr() == name.as_ptr(), "P:c11.methods_in_order_of_appearance");
+                assert!(m < idl.method_keys.len() && idl.method_keys[m].as_ptr() == want, "P:c11.methods_in_order_of_appearance");
                 m += 1;
             }
             K_TYPE => {
-                assert!(t < idl.typedef_keys.len() && idl.typedef_keys[t].as_ptr() == name.as_ptr(), "P:c11.types_in_order_of_appearance");
+                assert!(t < idl.typedef_keys.len() && idl.typedef_keys[t].as_ptr() == want, "P:c11.types_in_order_of_appearance");
                 t += 1;
             }
             _ => {
-                assert!(e < idl.error_keys.len() && idl.error_keys[e].as_ptr() == name.as_ptr(), "P:c11.errors_in_order_of_appearance");
+                assert!(e < idl.error_keys.len() && idl.error_keys[e].as_ptr() == want, "P:c11.errors_in_order_of_appearance");
                 e += 1;
             }
         }
         j += 1;
     }
     assert!(idl.method_keys.len() == m && idl.typedef_keys.len() == t && idl.error_keys.len() == e, "P:c11.no_other_members");
+    if !dup {
+        assert!(idl.methods.len() == m && idl.typedefs.len() == t && idl.errors.len() == e, "P:c11.maps_hold_every_member");
+    }
+    assert!(idl.name.len() == 3 && idl.name.as_ptr() == "a.b".as_ptr(), "P:c11.interface_name_kept");
     std::mem::forget(idl);
 }
 
@@ -102,20 +170,29 @@ macro_rules! c11h {
         #[kani::stub(std::hash::RandomState::new, fixed_random_state)]
         #[kani::stub(std::collections::HashSet::insert, error_insert_model)]
         #[kani::stub(alloc::fmt::format, no_format)]
+        #[kani::stub(std::collections::BTreeMap::insert, btree_insert_model)]
+        #[kani::stub(std::collections::BTreeMap::len, btree_len_model)]
         fn $name() {
             duplicates($n, $kinds);
         }
     };
 }
 
-c11h!(c11_dup_mm, 2, [K_METHOD, K_METHOD, 0]);
-c11h!(c11_dup_mt, 2, [K_METHOD, K_TYPE, 0]);
-c11h!(c11_dup_me, 2, [K_METHOD, K_ERROR, 0]);
-c11h!(c11_dup_tm, 2, [K_TYPE, K_METHOD, 0]);
-c11h!(c11_dup_tt, 2, [K_TYPE, K_TYPE, 0]);
-c11h!(c11_dup_te, 2, [K_TYPE, K_ERROR, 0]);
-c11h!(c11_dup_em, 2, [K_ERROR, K_METHOD, 0]);
-c11h!(c11_dup_et, 2, [K_ERROR, K_TYPE, 0]);
-c11h!(c11_dup_ee, 2, [K_ERROR, K_ERROR, 0]);
-c11h!(c11_dup_mte, 3, [K_METHOD, K_TYPE, K_ERROR]);
-c11h!(c11_dup_etm, 3, [K_ERROR, K_TYPE, K_METHOD]);
+const M: u8 = K_METHOD;
+const T: u8 = K_TYPE;
+const E: u8 = K_ERROR;
+c11h!(c11_dup_mm, 2, [M, M, 0]);
+c11h!(c11_dup_mt, 2, [M, T, 0]);
+c11h!(c11_dup_me, 2, [M, E, 0]);
+c11h!(c11_dup_tm, 2, [T, M, 0]);
+c11h!(c11_dup_tt, 2, [T, T, 0]);
+c11h!(c11_dup_te, 2, [T, E, 0]);
+c11h!(c11_dup_em, 2, [E, M, 0]);
+c11h!(c11_dup_et, 2, [E, T, 0]);
+c11h!(c11_dup_ee, 2, [E, E, 0]);
+c11h!(c11_dup_mte, 3, [M, T, E]);
+c11h!(c11_dup_etm, 3, [E, T, M]);
+c11h!(c11_dup_mmt, 3, [M, M, T]);
+c11h!(c11_dup_tee, 3, [T, E, E]);
+c11h!(c11_dup_tmt, 3, [T, M, T]);
+c11h!(c11_dup_eme, 3, [E, M, E]);
